@@ -130,7 +130,100 @@ def gen_default(rng, ty):
     return {"null": 1}
 
 
-def gen_param(rng, name, earlier, inherited):
+def path_of(fam, nm):
+    """mirror of Model.path_of (get_import_path): the canonical path of the object named nm"""
+    sub = dict(fam.get("subs") or []).get(nm)
+    if sub is None or dict(fam.get("exports") or []).get(nm) == nm:
+        return fam["mod"] + "." + nm
+    return "%s.%s.%s" % (fam["mod"], sub, nm)
+
+
+def import_name(fam, cp):
+    """mirror of Model.import_obj: the name of the family object a path imports to, or None"""
+    pre = fam["mod"] + "."
+    if not cp.startswith(pre):
+        return None
+    rest = cp[len(pre):]
+    names = {k["name"] for k in fam["classes"]} | {f["name"] for f in fam["funcs"]} | set(fam["consts"])
+    where = dict(fam.get("subs") or [])
+    exports = dict(fam.get("exports") or [])
+    if "." not in rest:
+        if rest in names and rest not in where:
+            return rest
+        return exports.get(rest)
+    sub, nm = rest.split(".", 1)
+    return nm if "." not in nm and where.get(nm) == sub and nm in names else None
+
+
+def all_paths(fam, nm):
+    """every path under which the object named nm can be imported"""
+    out = [path_of(fam, nm)]
+    sub = dict(fam.get("subs") or []).get(nm)
+    if sub is not None:
+        out.append("%s.%s.%s" % (fam["mod"], sub, nm))
+    out += [fam["mod"] + "." + a for a, t in fam.get("exports") or [] if t == nm]
+    return sorted(set(out), key=out.index)
+
+
+def gen_spec_default(rng, classes, ty):
+    """a default that is itself a class spec (lazy_instance(Sub, ..)): a concrete subclass of the annotation, defined
+    earlier, all of whose required parameters are int/str; init_args: the required ones and some others"""
+    tmp = {"classes": classes}
+    cands = [k for k in classes if is_sub(tmp, k["name"], ty[1]) and not k["abstract"]
+             and all(p["def"] is not None or p["ty"][0] in ("int", "str") for p in k["params"])]
+    if not cands:
+        return None
+    proper = [k for k in cands if k["name"] != ty[1]]
+    k = rng.choice(proper if proper and rng.random() < 0.8 else cands)
+    ia = []
+    for p in k["params"]:
+        if p["ty"][0] in ("int", "str") and (p["def"] is None or rng.random() < 0.5):
+            ia.append([p["name"], gen_leaf(rng, p["ty"], True)])
+    return {"spec": {"cp": k["name"], "ia": ia, "dk": []}}   # cp: the class NAME, made a path by fix_default_paths
+
+
+def fix_default_paths(fam):
+    for ps in [k["params"] for k in fam["classes"]] + [f["params"] for f in fam["funcs"]]:
+        for p in ps:
+            if p["def"] is not None and "spec" in p["def"] and "." not in p["def"]["spec"]["cp"]:
+                p["def"] = {"spec": dict(p["def"]["spec"], cp=path_of(fam, p["def"]["spec"]["cp"]))}
+
+
+def gen_layout(rng, fam):
+    """lay the family out as a package: the last 1-3 classes (and the functions returning them) live in submodules s1 / s2;
+    __init__ re-exports some of them under their own name, under the name of ANOTHER submodule object, or under a new name"""
+    n = len(fam["classes"])
+    k = rng.randint(1, min(3, n - 1))
+    tail = [c["name"] for c in fam["classes"][n - k:]]
+    cut = rng.randint(1, len(tail))
+    where = {nm: ("s1" if i < cut else "s2") for i, nm in enumerate(tail)}
+    subs = [[nm, where[nm]] for nm in tail]
+    for f in fam["funcs"]:
+        if f["ret"] in where:
+            subs.append([f["name"], where[f["ret"]]])
+    exports = []
+    for nm in tail:
+        if rng.random() < 0.4:
+            exports.append([nm, nm])
+    free = [nm for nm in tail if nm not in [a for a, _ in exports]]
+    if free and len(tail) > 1 and rng.random() < 0.6:
+        a = rng.choice(free)
+        exports.append([a, rng.choice([t for t in tail if t != a])])      # a homonym: pkg.a is another object
+    if rng.random() < 0.3:
+        exports.append(["Alias0", rng.choice(tail)])
+    fam["subs"], fam["exports"] = subs, exports
+
+
+def gen_param(rng, name, earlier, inherited, classes=()):
+    p = _gen_param(rng, name, earlier, inherited)
+    if p["ty"][0] in ("cls", "opt") and rng.random() < 0.35:
+        d = gen_spec_default(rng, list(classes), p["ty"])
+        if d is not None:
+            p["def"] = d
+    return p
+
+
+def _gen_param(rng, name, earlier, inherited):
     if name in inherited and rng.random() < 0.75:
         ty = inherited[name]
     else:
@@ -176,11 +269,14 @@ def gen_family(rng, idx):
             params = []
             for nm in names[:4]:
                 src = inherited if nm in inherited else types_seen
-                p = gen_param(rng, nm, earlier, src)
+                p = gen_param(rng, nm, earlier, src, classes)
                 types_seen.setdefault(nm, p["ty"])
                 params.append(p)
+            has_spec_default = any(p["def"] is not None and "spec" in p["def"] for p in params)
+            # (a **kw constructor with a lazy_instance default makes the parameter resolver fall back to collecting the
+            #  parents' parameters - C13's business: such classes get no **kw)
             classes.append({"name": name, "parents": parents, "params": params,
-                            "abstract": rng.random() < 0.15, "varkw": rng.random() < 0.25})
+                            "abstract": rng.random() < 0.15, "varkw": rng.random() < 0.25 and not has_spec_default})
         if not mro_ok(classes):
             continue
         concrete = [k for k in classes if not k["abstract"]]
@@ -189,12 +285,18 @@ def gen_family(rng, idx):
         funcs = []
         for j in range(rng.randint(0, 2)):
             k = rng.choice(concrete)
-            ps = [dict(p) for p in k["params"] if p["def"] is None or rng.random() < 0.6]
+            # (a parameter defaulting to a class spec is always forwarded: left to the class it would be built lazily,
+            #  outside the constructor log)
+            ps = [dict(p) for p in k["params"] if p["def"] is None or "spec" in p["def"] or rng.random() < 0.6]
             for p in ps:
                 if p["def"] is not None and p["ty"][0] == "int" and rng.random() < 0.5:
                     p["def"] = {"i": rng.randint(10, 19)}
             funcs.append({"name": "make%d" % j, "ret": k["name"], "params": ps})
-        return {"mod": "jvfam%d" % idx, "classes": classes, "funcs": funcs, "consts": ["K0"]}
+        fam = {"mod": "jvfam%d" % idx, "classes": classes, "funcs": funcs, "consts": ["K0"], "subs": [], "exports": []}
+        if rng.random() < 0.35:
+            gen_layout(rng, fam)
+        fix_default_paths(fam)
+        return fam
 
 
 def cls_of(fam, name):
@@ -202,7 +304,7 @@ def cls_of(fam, name):
 
 
 def params_of_path(fam, cp):
-    nm = cp.split(".")[-1]
+    nm = import_name(fam, cp) or cp.split(".")[-1]
     k = cls_of(fam, nm)
     if k:
         return k["params"]
@@ -213,26 +315,33 @@ def params_of_path(fam, cp):
 # ------------------------------------------------------------------------------------------------
 # explicit config trees  {"cp": path, "ia": [[k, node]], "dk": [[k, leaf]]}  leaves {"i"}/{"s"}/{"null"}
 # ------------------------------------------------------------------------------------------------
+def a_path(rng, fam, nm):
+    """a path of the object named nm: mostly the canonical one, else any other under which it is importable"""
+    return path_of(fam, nm) if rng.random() < 0.7 else rng.choice(all_paths(fam, nm))
+
+
 def pick_class(rng, fam, base, clean):
     mod = fam["mod"]
+    if fam.get("exports") and rng.random() < (0.05 if clean else 0.12):
+        return mod + "." + rng.choice(fam["exports"])[0]      # whatever __init__ re-exports under that name
     subs = [k for k in fam["classes"] if is_sub(fam, k["name"], base)]
     conc = [k for k in subs if not k["abstract"]]
     r = rng.random()
     if clean or r < 0.74:
         pool = conc or subs
-        return mod + "." + rng.choice(pool)["name"]
+        return a_path(rng, fam, rng.choice(pool)["name"])
     if r < 0.82:
         fs = [f for f in fam["funcs"] if is_sub(fam, f["ret"], base)] or fam["funcs"]
         if fs:
-            return mod + "." + rng.choice(fs)["name"]
+            return a_path(rng, fam, rng.choice(fs)["name"])
     if r < 0.88:
         others = [k for k in fam["classes"] if not is_sub(fam, k["name"], base)]
         if others:
-            return mod + "." + rng.choice(others)["name"]
+            return a_path(rng, fam, rng.choice(others)["name"])
     if r < 0.92:
         ab = [k for k in subs if k["abstract"]]
         if ab:
-            return mod + "." + rng.choice(ab)["name"]
+            return a_path(rng, fam, rng.choice(ab)["name"])
     if r < 0.95:
         return mod + ".K0"
     if r < 0.98:
@@ -260,6 +369,16 @@ def gen_tree(rng, fam, base, depth=0, clean=False):
             ia.append([p["name"], gen_leaf(rng, p["ty"], clean)])
         elif p["ty"][0] == "opt" and rng.random() < 0.2:
             ia.append([p["name"], {"null": 1}])
+        elif p["def"] is not None and "spec" in p["def"] and rng.random() < 0.6:
+            # the parameter defaults to a class spec: override init_args only, relying on the default's class_path
+            dcp = p["def"]["spec"]["cp"]
+            sub = [[q["name"], gen_leaf(rng, q["ty"], clean)] for q in params_of_path(fam, dcp)
+                   if q["ty"][0] in ("int", "str") and rng.random() < 0.6]
+            if not sub:
+                continue
+            nm = import_name(fam, dcp)
+            ia.append([p["name"], {"cp": dcp, "ia": sub, "dk": [], "bare": nm if nm and cls_of(fam, nm) else None,
+                                   "implicit": True}])
         elif depth < 3:
             ia.append([p["name"], gen_tree(rng, fam, p["ty"][1], depth + 1, clean)])
     if not clean and rng.random() < 0.06:
@@ -271,18 +390,25 @@ def gen_tree(rng, fam, base, depth=0, clean=False):
             key = rng.choice(["zz", "yy"] + ([rng.choice(PNAMES)] if rng.random() < 0.3 else []))
             if key not in [k for k, _ in dk]:
                 dk.append([key, gen_leaf(rng, ["int"] if rng.random() < 0.7 else ["str"], True)])
-    return {"cp": cp, "ia": ia, "dk": dk}
+    nm = import_name(fam, cp)
+    return {"cp": cp, "ia": ia, "dk": dk, "bare": nm if nm is not None and cls_of(fam, nm) else None}
 
 
-def short_name(rng, cp, p_short):
-    return cp.split(".")[-1] if rng.random() < p_short and cp.count(".") == 1 else cp
+def short_name(rng, cp, p_short, bare=None):
+    """bare: the name of the class the path imports to (None: not a class of the family / unknown)"""
+    if bare is None and cp.count(".") == 1:
+        bare = cp.split(".")[-1]
+    return bare if bare is not None and rng.random() < p_short else cp
 
 
 def tree_raw(rng, t, p_short=0.0):
     """config tree -> raw value (dict form); class paths abbreviated with probability p_short"""
     if "cp" not in t:
         return t
-    cp = short_name(rng, t["cp"], p_short)
+    if t.get("implicit") and rng.random() < 0.85:      # no class_path: the class of the parameter's default
+        kv = [[k, tree_raw(rng, v, p_short)] for k, v in t["ia"]]
+        return {"d": [["init_args", {"d": kv}]]} if rng.random() < 0.7 else {"d": kv}
+    cp = short_name(rng, t["cp"], p_short, t.get("bare"))
     if not t["ia"] and not t["dk"] and rng.random() < (0.7 if p_short else 0.0):
         return {"s": cp}
     d = [["class_path", {"s": cp}]]
@@ -303,9 +429,11 @@ def tree_value(t):
 def steps_for(rng, t, prefix, top):
     """a config tree as a sequence of argv items below key path `prefix` (list of components)"""
     steps = []
-    cp = short_name(rng, t["cp"], 0.7)
+    cp = short_name(rng, t["cp"], 0.7, t.get("bare"))
     if top:
         steps.append({"raw": {"s": cp}})
+    elif t.get("implicit") and rng.random() < 0.85:
+        pass                                             # --x.k.p=v without ever naming the class of k
     else:
         steps.append({"nested": prefix, "raw": {"s": cp}})
     items = list(t["ia"])
@@ -339,7 +467,7 @@ def resolve_name(fam, base, nm):
     if "." in nm:
         return nm
     hits = [k for k in fam["classes"] if k["name"] == nm and is_sub(fam, nm, base) and not k["abstract"]]
-    return fam["mod"] + "." + nm if len(hits) == 1 else nm
+    return path_of(fam, nm) if len(hits) == 1 else nm
 
 
 def strip_ia(path):
@@ -380,7 +508,7 @@ def expand_steps(fam, base, dflt, steps):
     if dflt is not None:
         cur = dflt["spec"]["cp"]
     elif not cls_of(fam, base)["abstract"]:
-        cur = fam["mod"] + "." + base
+        cur = path_of(fam, base)
     out = []
     for st in steps:
         if "nested" in st:
@@ -430,11 +558,31 @@ def _int_meets_str(fam, steps, dflt):
     return dflt is not None and walk(None, dflt)
 
 
+def rebase_family(fam, mod):
+    """the same classes in ONE module called `mod` (class paths inside parameter defaults follow)"""
+    new = {"mod": mod, "classes": [], "funcs": [], "consts": fam["consts"], "subs": [], "exports": []}
+
+    def ps_(ps):
+        out = []
+        for p in ps:
+            p = dict(p)
+            if p["def"] is not None and "spec" in p["def"]:
+                nm = import_name(fam, p["def"]["spec"]["cp"])
+                p["def"] = {"spec": dict(p["def"]["spec"], cp=mod + "." + nm)}
+            out.append(p)
+        return out
+
+    new["classes"] = [dict(k, params=ps_(k["params"])) for k in fam["classes"]]
+    new["funcs"] = [dict(f, params=ps_(f["params"])) for f in fam["funcs"]]
+    return new
+
+
 def sub_family(fam, n1, mod):
-    """the family as it was when only its first n1 classes (and the functions returning one of them) existed"""
+    """the (one-module) family as it was when only its first n1 classes (and the functions returning one of them) existed"""
     cl = fam["classes"][:n1]
     names = {k["name"] for k in cl}
-    return {"mod": mod, "classes": cl, "funcs": [f for f in fam["funcs"] if f["ret"] in names], "consts": fam["consts"]}
+    return {"mod": mod, "classes": cl, "funcs": [f for f in fam["funcs"] if f["ret"] in names], "consts": fam["consts"],
+            "subs": [], "exports": []}
 
 
 def _gen_history_case(rng, fam, tag):
@@ -443,7 +591,7 @@ def _gen_history_case(rng, fam, tag):
     the case proper runs against the whole family - in one process. The module gets a name of its own."""
     n = len(fam["classes"])
     mod = "%sh%s" % (fam["mod"], tag)
-    full = dict(fam, mod=mod)
+    full = rebase_family(fam, mod)
     n1 = rng.randint(1, n - 1)
     first = sub_family(full, n1, mod)
     old = [k["name"] for k in first["classes"]]
@@ -520,7 +668,7 @@ def _entry_for(rng, fam, base, prev, allow_full=True):
     if r < 0.5 or not ps:
         sub = [k["name"] for k in fam["classes"] if is_sub(fam, k["name"], base) and not k["abstract"]]
         nm = rng.choice(sub) if sub else base
-        t = {"cp": fam["mod"] + "." + nm, "ia": [], "dk": []}
+        t = {"cp": path_of(fam, nm), "ia": [], "dk": []}
         return {"s": nm if rng.random() < 0.6 else t["cp"]}, t
     p = rng.choice(ps)
     kv = [[p["name"], gen_leaf(rng, p["ty"], True)]]
@@ -730,7 +878,7 @@ def _gen_case(rng, fam, base=None):
             steps = steps_for(rng, t1, [], True) if rng.random() < 0.6 else [{"raw": tree_raw(rng, t1, 0.5)}]
             r = rng.random()
             if r < 0.4:
-                steps.append({"raw": {"s": short_name(rng, t2["cp"], 0.6)}})
+                steps.append({"raw": {"s": short_name(rng, t2["cp"], 0.6, t2.get("bare"))}})
             elif r < 0.7:
                 steps.append({"raw": tree_raw(rng, t2, 0.5)})
             else:
@@ -1036,8 +1184,10 @@ def g_family(fam):
         for k in fam["classes"]], "cls")
     fs = g_list(["{| f_name := %s; f_ret := %s; f_params := %s |}" % (
         g_str(f["name"]), g_str(f["ret"]), g_list([g_param(p) for p in f["params"]], "param")) for f in fam["funcs"]], "func")
-    return "{| fam_mod := %s; fam_classes := %s; fam_funcs := %s; fam_consts := %s |}" % (
-        g_str(fam["mod"]), cl, fs, g_list([g_str(x) for x in fam["consts"]], "str"))
+    return "{| fam_mod := %s; fam_classes := %s; fam_funcs := %s; fam_consts := %s; fam_subs := %s; fam_exports := %s |}" % (
+        g_str(fam["mod"]), cl, fs, g_list([g_str(x) for x in fam["consts"]], "str"),
+        g_list([g_pair(g_str(a), g_str(b)) for a, b in fam.get("subs") or []], "(str * str)"),
+        g_list([g_pair(g_str(a), g_str(b)) for a, b in fam.get("exports") or []], "(str * str)"))
 
 
 def g_arg(a):
@@ -1153,9 +1303,10 @@ def category(case, obs):
 def describe(case, obs):
     import sys, os
     sys.path.insert(0, os.path.join(os.path.dirname(os.path.dirname(os.path.abspath(__file__))), "impl"))
-    from c14_classes import argv_of, module_source, py_value
+    from c14_classes import argv_of, module_source, package_source, py_value
 
-    d = {"module_source": module_source(case["fam"]), "declared_type": case["base"],
+    files = package_source(case["fam"])
+    d = {"module_source": module_source(case["fam"]) if len(files) == 1 else files, "declared_type": case["base"],
          "default": py_value(case["dflt"]) if case["dflt"] else None, "observed": obs["main"]}
     if case.get("warm"):
         w = case["warm"]
